@@ -46,6 +46,27 @@ def f(x, n, b, xs):
   o = _B()
   return (o.m(n), _B.m(o, len(xs)))
 '''),
+    ('fr:context_builtins_through_partial', '''class _P(object):
+  def who(self):
+    return 'P'
+
+class _Q(_P):
+  def who(self):
+    up = functools.partial(super)
+    return 'Q>' + up().who()
+
+def f(x, n, b, xs):
+  a = x + 1
+  ev = functools.partial(eval, 'a * 2 + n')
+  r = [ev()]
+  if b:
+    r.append(functools.partial(eval)('a - n') + a - a + n - n)
+  loc = functools.partial(locals)()
+  r.append(loc['a'] + loc['n'])
+  r.append('f' in functools.partial(globals)())
+  r.append(_Q().who())
+  return r
+'''),
     ('fr:eval_in_nested_def', '''def f(x, n, b, xs):
   a = x
   def h(p):
